@@ -91,10 +91,27 @@ macro_rules! forward_display {
     };
 }
 forward_display!(Display);
-forward_display!(LowerHex);
-forward_display!(UpperHex);
-forward_display!(Binary);
-forward_display!(Octal);
+
+// i64's own {:x} / {:b} / {:o} print the two's complement of a negative number while BigInt's
+// print sign and magnitude; format negative Smalls like BigInt so that the text depends on the
+// value only
+macro_rules! forward_display_radix {
+    ($impl:ident) => {
+        impl fmt::$impl for NInt {
+            fn fmt(&self, formatter: &mut fmt::Formatter) -> fmt::Result {
+                match self {
+                    NInt::Small(n) if *n < 0 => fmt::$impl::fmt(&BigInt::from(*n), formatter),
+                    NInt::Small(n) => fmt::$impl::fmt(n, formatter),
+                    NInt::Big(n) => fmt::$impl::fmt(n, formatter),
+                }
+            }
+        }
+    };
+}
+forward_display_radix!(LowerHex);
+forward_display_radix!(UpperHex);
+forward_display_radix!(Binary);
+forward_display_radix!(Octal);
 
 macro_rules! impl_binary {
     ($imp:ident, $method:ident, $func:expr) => {
